@@ -23,6 +23,7 @@ CONSTANTS MaxLen,    \* bound on the number of tokens of a program
           Fuel,      \* bound on machine steps
           Prods,     \* enabled production families (layers)
           Faults,    \* enabled single-fault families
+          Root,      \* "os": executable programs; "retint": closed computations of type Ret Int64 (C20)
           BindTys,   \* names of the types a binder may range over (cut types)
           IntLits    \* integer literals the generator may write
 
@@ -219,8 +220,9 @@ TyOf(ctx, n) ==
               IF i = 0 THEN Err("T-Dtor-Unknown")
               ELSE IF CoArms(h.n)[i].c = n.c THEN n.c ELSE Err("T-Dtor-Result")
 
+RootTy == IF Root = "os" THEN OS ELSE Ret(TInt)
 Verdict(tree) == LET T == TyOf(<< >>, tree) IN
-                 IF T = OS THEN "accept" ELSE IF IsErr(T) THEN T.why ELSE "T-Root"
+                 IF T = RootTy THEN "accept" ELSE IF IsErr(T) THEN T.why ELSE "T-Root"
 
 ----------------------------------------------------------------------------
 (* Typing, formulation 2: the derivation machine.                          *)
@@ -446,7 +448,7 @@ Run ==
      /\ steps' = steps + 1
      /\ CASE ctl.k \in {"ret", "retv"} ->
               LET v == IF ctl.k = "ret" THEN EvalV(ctl.xs[1], env) ELSE ctl.v IN
-              IF stk = << >> THEN Finish([verdict |-> "accept", end |-> "ret"])
+              IF stk = << >> THEN Finish([verdict |-> "accept", end |-> "ret", val |-> IF v.k = "int" THEN v.n ELSE 0])
               ELSE Goto(Head(stk).b, Append(Head(stk).e, v), Tail(stk))
          [] ctl.k = "do" -> Goto(ctl.xs[1], env, <<[t |-> "kont", b |-> ctl.xs[2], e |-> env]>> \o stk)
          [] ctl.k = "force" -> LET v == EvalV(ctl.xs[1], env) IN Goto(v.b, v.e, stk)
@@ -484,7 +486,7 @@ Run ==
          [] ctl.k = "dtor" -> Goto(ctl.xs[1], env, <<[t |-> "dtor", d |-> ctl.d]>> \o stk)
 
 Init ==
-  /\ phase = "gen" /\ out = << >> /\ todo = <<Ob("c", OS, << >>)>> /\ faulty = "none"
+  /\ phase = "gen" /\ out = << >> /\ todo = <<Ob("c", RootTy, << >>)>> /\ faulty = "none"
   /\ ctl = [k |-> "none"] /\ env = << >> /\ stk = << >> /\ io = << >> /\ steps = 0
   /\ res = [verdict |-> "none"]
 
